@@ -241,16 +241,12 @@ func (r *nativeResult) matches(e *replayExpect) (bool, string) {
 			}
 		}
 		return false, fmt.Sprintf("assertion %q did not fail natively (failed: %v, done=%v, exit=%d, panic=%q)", e.Label, r.AssertFails, r.Done, r.ExitCode, r.Panic)
-	case "panic":
-		if r.Panic != "" && !r.Done {
+	case "panic", "exit":
+		// a crash: the native run neither completed nor was cut by an assumption
+		if !r.Done && !r.AssumeFail && (r.Panic != "" || r.ExitCode != 0) {
 			return true, ""
 		}
-		return false, fmt.Sprintf("no native panic (done=%v exit=%d)", r.Done, r.ExitCode)
-	case "exit":
-		if !r.Done && r.Panic == "" && r.ExitCode != 0 && !r.AssumeFail {
-			return true, ""
-		}
-		return false, fmt.Sprintf("no native process exit (done=%v exit=%d panic=%q)", r.Done, r.ExitCode, r.Panic)
+		return false, fmt.Sprintf("no native crash (done=%v exit=%d panic=%q assumeFail=%v)", r.Done, r.ExitCode, r.Panic, r.AssumeFail)
 	case "completed":
 		if !r.Done {
 			return false, fmt.Sprintf("native run did not complete (exit=%d panic=%q assumeFail=%v)", r.ExitCode, r.Panic, r.AssumeFail)
